@@ -894,6 +894,29 @@ Ltac qfin H :=
   repeat (constructor; try (unfold mcond; cbn [mquiet_kind msubject e_holder]; repeat split; auto));
   try (match goal with H' : ents_on _ _ = _ :: _ |- _ => apply ents_on_holder in H'; rewrite H'; assumption end).
 
+Lemma val_of_set_same' : forall d n v, val_of (set_val d n v) n = v.
+Proof. intros. unfold val_of, set_val. simpl. rewrite N.eqb_refl. reflexivity. Qed.
+
+Lemma val_of_set_other : forall d n v m, m <> n -> val_of (set_val d n v) m = val_of d m.
+Proof. intros. unfold val_of, set_val. simpl. destruct (n =? m) eqn:E; [apply N.eqb_eq in E; congruence | reflexivity]. Qed.
+Lemma md_clone_unlogged : forall d r n t, unlogged (val_of d r) = true ->
+  d_log (md (MCloneTo r n t) d) = d_log d /\ val_of (md (MCloneTo r n t) d) n = val_of d r /\
+  (forall m, m <> n -> val_of (md (MCloneTo r n t) d) m = val_of d m).
+Proof.
+  intros d r n t Hu. unfold md. rewrite mh_log. cbn [md0].
+  destruct (val_of d r) eqn:E; try discriminate Hu; (split; [reflexivity|split]);
+    try (rewrite mh_val_of; apply val_of_set_same'); intros m Hm; rewrite mh_val_of; apply val_of_set_other; exact Hm.
+Qed.
+Lemma md_release_unlogged : forall d n t, unlogged (val_of d n) = true -> d_log (md (MRelease n t) d) = d_log d.
+Proof. intros d n t Hu. unfold md. rewrite mh_log. cbn [md0]. destruct (val_of d n); try discriminate Hu; reflexivity. Qed.
+Lemma md_swap : forall d a b, d_log (md (MSwap a b) d) = d_log d /\ val_of (md (MSwap a b) d) b = val_of d a /\
+  (a <> b -> val_of (md (MSwap a b) d) a = val_of d b).
+Proof.
+  intros d a b. unfold md. rewrite mh_log, !mh_val_of. cbn [md0]. cbv zeta. repeat split.
+  - apply val_of_set_same'.
+  - intros Hab. rewrite val_of_set_other by exact Hab. apply val_of_set_same'.
+Qed.
+
 Theorem disabled_silent_step : forall s x s', step s x = Some s' -> on_unlogged s x = true ->
   quiet (d_log (snd s)) (d_log (snd s')).
 Proof.
@@ -917,6 +940,28 @@ Proof.
       all: destruct (val_of d f); try discriminate Hu; apply quiet_refl. }
     destruct (kind_of o f) as [[| |b]|]; try discriminate H;
       (destruct (readable o f && negb (live o n)); [|discriminate]); eapply Hq; exact H.
+  - (* CloneDrop *)
+    destruct (readable o r && negb (live o n)); [|discriminate].
+    cbn [exec fst snd] in H. destruct (mo (MCloneTo r n t) o) as [o1|]; [|discriminate].
+    destruct (mo (MRelease n t) o1) as [o2|]; [|discriminate].
+    remember (md (MRelease n t) (md (MCloneTo r n t) d)) as dd eqn:Edd. injection H as <-. change (snd (o2, dd)) with dd. subst dd.
+    destruct (md_clone_unlogged d r n t Hu) as [H1 [H2 _]].
+    rewrite md_release_unlogged by (rewrite H2; exact Hu). rewrite H1. apply quiet_refl.
+  - (* CloneFrom *)
+    apply andb_true_iff in Hu. destruct Hu as [Hua Hub].
+    destruct (is_handle o a && free o a && readable o b && negb (a =? b) && negb (live o n)) eqn:Ec; [|discriminate].
+    apply andb_true_iff in Ec. destruct Ec as [Ec En0]. apply andb_true_iff in Ec. destruct Ec as [Ec Efn].
+    apply andb_true_iff in Ec. destruct Ec as [Ec Ern]. apply andb_true_iff in Ec. destruct Ec as [_ Efree].
+    assert (Hf0 : a <> n).
+    { intro Heq; subst n. apply negb_true_iff in En0. unfold free in Efree. apply andb_true_iff in Efree. destruct Efree as [El _]. congruence. }
+    cbn [exec fst snd] in H. destruct (mo (MCloneTo b n t) o) as [o1|]; [|discriminate].
+    destruct (mo (MSwap a n) o1) as [o2|]; [|discriminate]. destruct (mo (MRelease n t) o2) as [o3|]; [|discriminate].
+    remember (md (MRelease n t) (md (MSwap a n) (md (MCloneTo b n t) d))) as dd eqn:Edd. injection H as <-.
+    change (snd (o3, dd)) with dd. subst dd.
+    destruct (md_clone_unlogged d b n t Hub) as [H1 [H2 H3]].
+    destruct (md_swap (md (MCloneTo b n t) d) a n) as [S1 [S2 _]].
+    rewrite md_release_unlogged; [rewrite S1, H1; apply quiet_refl|].
+    rewrite S2, H3 by exact Hf0. exact Hua.
 Qed.
 
 Lemma find_some_prop : forall {A} (f : A -> bool) l x, find f l = Some x -> f x = true.
